@@ -75,6 +75,7 @@ type built struct {
 	bin     string
 	stats   *instrument.Stats
 	racy    bool
+	known   string
 }
 
 // repoLock serialises access to /repo's working tree between concurrent checks:
@@ -153,6 +154,15 @@ func (b *built) run(env []string, timeout time.Duration) (string, error) {
 	cmd.Env = append(os.Environ(), env...)
 	if b.racy {
 		cmd.Env = append(cmd.Env, "VERIF_RACY=1")
+	}
+	hasKnown := false
+	for _, e := range env {
+		if strings.HasPrefix(e, "VERIF_KNOWN=") {
+			hasKnown = true
+		}
+	}
+	if !hasKnown {
+		cmd.Env = append(cmd.Env, "VERIF_KNOWN="+b.known) // every mode (replay, shrink, det) sees the same known-class list as the runs
 	}
 	var buf strings.Builder
 	cmd.Stdout = &buf
@@ -237,6 +247,23 @@ func main() {
 		os.Exit(code)
 	}
 
+	// known findings
+	var kf struct {
+		Findings []finding `json:"findings"`
+	}
+	if kb, err := os.ReadFile(filepath.Join(verifDir, "known_findings.json")); err == nil {
+		if err := json.Unmarshal(kb, &kf); err != nil {
+			die(2, "known_findings.json: %v", err)
+		}
+	}
+	var known []string
+	for _, f := range kf.Findings {
+		if f.Property == id && f.Status == "open" {
+			known = append(known, f.Class)
+		}
+	}
+	b.known = strings.Join(known, "\x1f")
+
 	if *warm {
 		fmt.Printf("check %s: harness built in %.1fs\n", id, buildS)
 		exit(0)
@@ -257,22 +284,6 @@ func main() {
 			exit(2)
 		}
 		selfNote = note
-	}
-
-	// known findings
-	var kf struct {
-		Findings []finding `json:"findings"`
-	}
-	if kb, err := os.ReadFile(filepath.Join(verifDir, "known_findings.json")); err == nil {
-		if err := json.Unmarshal(kb, &kf); err != nil {
-			die(2, "known_findings.json: %v", err)
-		}
-	}
-	var known []string
-	for _, f := range kf.Findings {
-		if f.Property == id && f.Status == "open" {
-			known = append(known, f.Class)
-		}
 	}
 
 	bud := time.Duration(m.QuickMs) * time.Millisecond
